@@ -788,7 +788,9 @@ class SpecClassMetadata:
         # Add in any explicitly mapped invalidations from class attributes
         seen_attributes = set(self.attrs)
         for klass in owner.mro():
-            for name, member in klass.__dict__.items():
+            # (a snapshot: another thread may be removing the lazy-bootstrap
+            # `__new__` wrapper of one of these classes right now)
+            for name, member in tuple(klass.__dict__.items()):
                 if (
                     name in seen_attributes
                     or name.startswith("__")
